@@ -9,7 +9,21 @@ classes) quantifies over interval members x bounds and is NOT decided. Decided f
     targets) and the top flag always "satisfy" a bound on the absolute part and must stay
  R3 unsatisfiable only when empty: Err is produced only under self.is_empty() evaluated after
     the update, and the bound passed on is the caller's bound
+
+Two type-resolved flow rules over the integer arithmetic of the interval modules (interval.rs,
+interval/simple_interval.rs) -- sign discipline, decided without evaluating any arithmetic:
+ R4 sign-safe residues: Rust's `%` on signed integers keeps the sign of the dividend. A signed
+    remainder whose dividend may be negative (positive evidence: it derives from a signed
+    conversion of a bitvector or a subtraction) may only be (a) normalised by `(r + m) % m` with r
+    DIRECTLY a remainder by the same m, (b) compared with 0, or (c) flow through arithmetic into
+    (a)/(b). Comparing two raw remainders, or casting one to an unsigned type, mis-computes the
+    residue class for negative values -> refinement (intersect) drops feasible values.
+ R5 no unsigned-tagged bitvector as signed addend: a Bitvector built by from_u64(..) /
+    into_resize_unsigned / into_zero_extend (an unsigned distance) must not be the operand of
+    signed_add_overflow_checked / signed_sub_overflow_checked: for distances >= 2^(n-1) the signed
+    reading is negative and the rounding goes the wrong way (stride >= 128 for 1-byte values).
 """
+from .lib import numflow as NF
 from .lib import sym as S
 from .lib import thir as T
 from .lib.sym import fmt
@@ -176,3 +190,123 @@ def run(run):
             getattr(run, verdict)("R3", key, detail, site)
 
     run.guarded("R3", r3)
+
+    # ---------------------------------------------------------------- R4 / R5
+    run.rule("R4", "signed remainders of possibly negative values are normalised before being compared or cast to unsigned")
+    run.rule("R5", "unsigned-tagged bitvectors are not used as signed addends")
+    FILES = ("abstract_domain/interval.rs", "abstract_domain/interval/simple_interval.rs", "abstract_domain/interval/bin_ops.rs")
+    fns = [f for f in F.raw["fns"] if f.get("dk") in ("Fn", "AssocFn") and any(F.file_of(f).endswith(x) for x in FILES) and not f.get("expn")]
+
+    def r4():
+        nrem = 0
+        seen = set()
+        for fn in fns:
+            flow = None
+            for n in T.walk_fn(F, fn):
+                if n.get("k") != "Binary" or n.get("o") != "Rem" or F.ty(n) not in NF.SIGNED:
+                    continue
+                if flow is None:
+                    flow = NF.Flow(F, fn)
+                nrem += 1
+                if NF.is_normaliser(flow, n):
+                    continue
+                dsign = flow.sign(n["l"])
+                verdicts = classify(flow, n, 0)
+                bad = [v for v in verdicts if v[0] == "bad"]
+                unk = [v for v in verdicts if v[0] == "unknown"]
+                if bad and dsign == "mayneg":
+                    for b in bad:
+                        key = "%s|%s|%s" % (fn["name"], b[1], T.show(b[2])[:70])
+                        if key in seen:
+                            continue
+                        seen.add(key)
+                        run.violated("R4", key, "signed remainder `%s` (its dividend may be negative: it derives from a signed bitvector conversion or a subtraction) is %s in `%s` without the `(r + m) %% m` normalisation: negative values land in the wrong residue class, so the refinement keeps/drops the wrong members" % (T.show(n)[:80], b[1], T.show(b[2])[:100]), F.loc(b[2]))
+                elif (bad and dsign == "unknown") or (unk and dsign == "mayneg"):
+                    w = (bad or unk)[0]
+                    key = "%s|%s|%s" % (fn["name"], w[1], T.show(n)[:50])
+                    if key not in seen:
+                        seen.add(key)
+                        run.undecided("R4", key, "signed remainder `%s` (dividend sign: %s) is %s at %s" % (T.show(n)[:80], dsign, w[1], F.loc(w[2]) if w[2] else "?"), F.loc(n))
+                else:
+                    run.holds("R4", "%s|%s" % (fn["name"], T.show(n)[:60]), "", F.loc(n))
+        run.floor("R4 signed remainders", nrem, 10)
+
+    def classify(flow, n, depth):
+        """verdicts for the value of node n (a raw signed remainder or arithmetic on one)."""
+        if depth > 12:
+            return [("unknown", "deep-flow", n)]
+        out = []
+        for cons, me in flow.consumers(n):
+            if cons is None:
+                out.append(("unknown", "returned/escapes", n))
+                continue
+            k = cons.get("k")
+            if k == "Binary":
+                o = cons["o"]
+                other = cons["r"] if cons["l"] is me or T.peel(cons["l"]) is T.peel(me) else cons["l"]
+                if o in ("Eq", "Ne"):
+                    od = flow.definition(other)
+                    if od.get("k") == "Lit" and str(od.get("v")).split("_")[0].rstrip("iu") == "0":
+                        out.append(("ok", "compared-with-0", cons))
+                    else:
+                        out.append(("bad", "compared-raw", cons))
+                elif o in ("Lt", "Le", "Gt", "Ge"):
+                    out.append(("bad", "ordered-raw", cons))
+                elif o == "Rem":
+                    if NF.is_normaliser(flow, cons):
+                        out.append(("ok", "normalised", cons))
+                    elif cons["r"] is me:
+                        out.append(("unknown", "used-as-modulus", cons))
+                    else:
+                        # dividend of an outer remainder: the outer one is judged on its own
+                        out.append(("ok", "absorbed-by-outer-remainder", cons))
+                elif o == "Add":
+                    pp = flow.parent.get(id(cons))
+                    while pp is not None and pp.get("k") in T.WRAPPERS:
+                        pp = flow.parent.get(id(pp))
+                    if pp is not None and pp.get("k") == "Binary" and pp.get("o") == "Rem" and NF.is_normaliser(flow, pp):
+                        out.append(("ok", "normalised", pp))
+                    else:
+                        out.extend(classify(flow, cons, depth + 1))
+                elif o in ("Sub", "Mul", "Div"):
+                    out.extend(classify(flow, cons, depth + 1))
+                else:
+                    out.append(("unknown", "operator-" + o, cons))
+            elif k == "Cast":
+                if F.ty(cons) in NF.UNSIGNED:
+                    out.append(("bad", "cast-to-unsigned", cons))
+                else:
+                    out.extend(classify(flow, cons, depth + 1))
+            elif k in ("AssignOp", "Assign"):
+                out.append(("unknown", "stored-in-mutable", cons))
+            elif k == "LetStmt":
+                out.append(("unknown", me if isinstance(me, str) else "bound", cons))
+            else:
+                out.append(("unknown", "used-by-" + str(k), cons))
+        return out
+
+    run.guarded("R4", r4)
+
+    def r5():
+        UNSIGNED_MAKERS = ("into_resize_unsigned", "into_zero_extend", "into_zero_resize", "from_u64", "from_u32", "from_u8", "from_u16")
+        SIGNED_OPS = ("signed_add_overflow_checked", "signed_sub_overflow_checked")
+        nsites = 0
+        for fn in fns:
+            flow = None
+            for n in T.walk_fn(F, fn):
+                if not (T.is_call(n) and n.get("n") in SIGNED_OPS and len(n.get("a", [])) == 2):
+                    continue
+                if flow is None:
+                    flow = NF.Flow(F, fn)
+                nsites += 1
+                arg = flow.definition(n["a"][1])
+                while T.is_call(arg) and arg.get("n") in ("unwrap", "clone") and arg.get("a"):
+                    arg = flow.definition(arg["a"][0])
+                key = "%s|%s|operand" % (fn["name"], n["n"])
+                if T.is_call(arg) and arg.get("n") in UNSIGNED_MAKERS:
+                    run.violated("R5", key, "`%s` gets the unsigned quantity `%s` as its signed operand: for distances >= 2^(n-1) the signed reading is negative (e.g. 1-byte values with stride >= 128), so rounding a bound to the stride goes the wrong way and the refinement reports Empty or a wrong bound" % (n["n"], T.show(arg)[:90]), F.loc(n))
+                else:
+                    run.holds("R5", key + "|" + T.show(n["a"][1])[:40], "", F.loc(n))
+        run.floor("R5 signed overflow-checked sites", nsites, 8)
+
+    run.guarded("R5", r5)
